@@ -36,6 +36,8 @@ CRIT = [255, 256, 257, 511, 512, 513]
 FIELDS = ["center_x", "center_y", "base_degrees_per_tile", "rotation_deg", "offset_x", "offset_y", "tile_levels"]
 TOL = 1e-9
 PAR = ("topdown", "bottomup")
+# grid rotations whose matrix elements are exact: <<cos, sin>>
+EXACT_ROT = {"0": (1.0, 0.0), "90": (0.0, 1.0), "-90": (0.0, -1.0), "180": (-1.0, 0.0), "45": (0.5 ** 0.5, 0.5 ** 0.5)}
 
 
 # ------------------------------------------------------------------------------------------------
@@ -195,7 +197,8 @@ def real_cases(rng, quick):
         c = dict(W=W, H=H, subs=random_decomp(rng, W, H, n, kw.pop("border", 25), big=kw.pop("big", True)),
                  agree=kw.pop("agree", rng.random() < 0.7),
                  r1=rng.randint(-600, 2 * W + 600), r2=rng.randint(-600, 2 * H + 600),
-                 theta=rng.choice([0.0, 0.0, 0.3, -1.1, 2.6]), scale=rng.choice([1e-3, 2.5e-4, 7e-3]),
+                 rot=kw.pop("rot", None) or rng.choice(["0", "0", "90", "-90", "180", "45", 0.3, -1.1, 2.6]),
+                 form=kw.pop("form", None) or rng.choice(["cd", "cd", "cd", "pc"]), scale=rng.choice([1e-3, 2.5e-4, 7e-3]),
                  crval=rng.choice([(10.0, 20.0), (283.25, -45.5), (0.5, 88.0)]),
                  dtype=rng.choice(["f4", "f4", "f8"]), seed=rng.randrange(1 << 30), tag=kw.pop("tag", "seeded"))
         c.update(kw)
@@ -214,6 +217,12 @@ def real_cases(rng, quick):
     add(150, 700, 4, tag="tall")
     add(200, 180, 3, tag="one-tile", big=True)
     add(256, 90, 2, tag="one-tile")
+    # grids rotated by exactly 0, +-90, 180 and 45 degrees (matrix elements that are exactly 0 or equal), written as a CD
+    # matrix and as PC + CDELT; one tile and several tiles
+    for i, rot in enumerate(["0", "90", "-90", "180", "45"]):
+        for j, form in enumerate(["cd", "pc"]):
+            W, H = [(300, 280), (140, 230), (520, 260)][(i + j) % 3]
+            add(W, H, 2, tag="exact-rotation", rot=rot, form=form, border=8)
     if not quick:
         add(2049, 300, 3, tag="wide-l4")
         add(1500, 1300, 5, tag="big")
@@ -241,7 +250,11 @@ def variants(case, rng, quick):
         perms = perms[:3 if quick else 8]
     out = []
     for i, perm in enumerate(perms):
-        if i == 0:
+        if case["form"] == "pc":
+            # the parity flip rewrites a PC + CDELT header as a CD matrix, and toasty's header comparison then refuses a
+            # collection of mixed storage parities (observed_outside_property): one parity per collection
+            pars = [PAR[(i + case["seed"]) % 2]] * n
+        elif i == 0:
             pars = [PAR[(j + 1) % 2] for j in range(n)]             # mixed
         elif i == 1:
             pars = ["bottomup"] * n
@@ -293,16 +306,21 @@ def write_fits(path, disp, par, c1, c2, case):
     import numpy as np
     from astropy.io import fits
     from astropy.wcs import WCS
-    c, k, s = np.cos(case["theta"]), np.sin(case["theta"]), case["scale"]
-    cd = np.array([[-c, k], [-k, -c]]) * s                       # top-down: positive determinant
+    c, k = EXACT_ROT[case["rot"]] if case["rot"] in EXACT_ROT else (float(np.cos(case["rot"])), float(np.sin(case["rot"])))
+    s = case["scale"]
+    sy = -1.0                                                    # top-down: CD = s [[-c, k], [-k, -c]], positive determinant
     data = disp
     if par == "bottomup":
-        cd = cd * np.array([[1.0, -1.0], [1.0, -1.0]])           # y counted from the other end
+        sy = 1.0                                                 # y counted from the other end: second column negated
         data = disp[::-1]
     w = WCS(naxis=2)
     w.wcs.ctype = ["RA---TAN", "DEC--TAN"]
     w.wcs.crval = list(case["crval"])
-    w.wcs.cd = cd
+    if case["form"] == "pc":
+        w.wcs.cdelt = [-s, sy * s]
+        w.wcs.pc = [[c, sy * k], [-sy * k, c]]
+    else:
+        w.wcs.cd = [[-c * s, -sy * k * s], [-k * s, sy * c * s]]
     w.wcs.crpix = [c1 / 2.0, c2 / 2.0]
     fits.PrimaryHDU(data=np.ascontiguousarray(data), header=w.to_header()).writeto(path, overwrite=True)
 
